@@ -198,12 +198,20 @@ class FGen:
 SOUP_PIECES = ["\\t", "\\n", "\\\\", "\\x41", "\\N{DIGIT ONE}", "\\", '"', "'", "'''", '"""', " + ", "x", " ", ", ", "{a}", "{b!r}", "{c:>4}", "{d:\\t>5}", "{e:{w}}", "{{", "}}", "{f=}", "#", "\\'", '\\"', "\\{", "é", "{g:'^3}", '{h:"^3}', ":", "!"]
 
 
+QUOTE_HEAVY = ["\\t", '"', "'" * 3, "'", '"' * 3, " + ", "x", ", ", " ", "\\n", "{a}", "\\"]
+
+
 def text_soup(rnd):
     """an f-string whose text is a random run of backslashes, quotes of every kind, braces and fields, in every delimiter and
     prefix; most are valid for at least one delimiter -- whether one is, is for the oracle (CPython) to say"""
     pre = rnd.choice(["f", "f", "rf", "F", "fR", "Rf"])
     q = rnd.choice(["'", '"', "'''", '"""', '"""', "'''"])
-    body = "".join(rnd.choice(SOUP_PIECES) for _ in range(rnd.randrange(1, 7)))
+    if rnd.random() < 0.4:
+        # quote-heavy: several quotes of the other kinds around an escape, operators and names between them (whatever decodes
+        # the text must not take a quote inside it for the end of anything)
+        body = "".join(rnd.choice(QUOTE_HEAVY) for _ in range(rnd.randrange(4, 10)))
+    else:
+        body = "".join(rnd.choice(SOUP_PIECES) for _ in range(rnd.randrange(1, 7)))
     if len(q) == 3 and rnd.random() < 0.3:
         i = rnd.randrange(len(body) + 1)
         body = body[:i] + "\n" + body[i:]
